@@ -131,6 +131,7 @@ type vfC13Case struct {
 }
 
 type vfC13State struct {
+	maybe   bool // a useful answer for the shared key arrived through another audience; sdns may or may not have dropped this state
 	backoff time.Duration
 	until   time.Duration
 }
@@ -288,6 +289,10 @@ func vfC13Run(t *testing.T, dir string, c *vfC13Case) (violation string, stats m
 				}
 				continue
 			}
+			if active != nil && active.maybe && calls != 0 {
+				delete(exact, key) // sdns had dropped it with the shared answer: resolved afresh
+				active = nil
+			}
 			if active != nil {
 				stats["lookup-during-backoff"]++
 				if calls != 0 {
@@ -331,6 +336,13 @@ func vfC13Run(t *testing.T, dir string, c *vfC13Case) (violation string, stats m
 					stats["success-after-failure"]++
 				}
 				delete(exact, key)
+				// the stub's answers are unscoped, so the answer is stored under the shared key whoever asked: it is a
+				// useful answer for every audience's partition of this question, the shared one included
+				for k, e := range exact {
+					if strings.HasPrefix(k, posKey+"/") {
+						e.maybe = true // whether another audience's own failure state survives the shared answer is left open
+					}
+				}
 				for z := range zones {
 					if vfC13AtOrBelow(sp.Name, z) {
 						delete(zones, z)
